@@ -11,6 +11,9 @@ import RedisVerif.Model.Stream
     COMPACT <target> <min> <maxper> <cutoff> <sz>       → nothing|err|cleaned [ids]|emptied [ids] tombs=<n>|
                                                           compacted [ids] -> <id> n=<k> tombs=<n>   (+ calls=<c>)
     REC                                                 → recovery of the current store image
+    INTERLEAVE <target> <min> <maxper> <cutoff> <szc> <szf> → a compaction with one whole flush (of the current
+                                                          buffer) between its reads and its writes:
+                                                          flush=<..> compact=<..> calls=<c>          (C13)
     CRASH <c> <0|1>                                     → the recorded workload re-run with the process dying at
                                                           store call c (1: inside a put, leaving a torn object):
                                                           recovery of the store image + refs=<0|1>
@@ -112,6 +115,22 @@ def step (s : St) (line : String) : St × String :=
       let sys' := stepWith current F s.sys (.compact cfg sz)
       ({ s with sys := sys', ops := s.ops ++ [.compact cfg sz] }, s!"{showCompact r.2} calls={sys'.w.calls}")
     | _, _, _, _, _ => (s, "bad-op")
+  | ["INTERLEAVE", a, b, c, d, e, f] =>
+    match a.toNat?, b.toNat?, c.toNat?, d.toNat?, e.toNat?, f.toNat? with
+    | some target, some mn, some mx, some cutoff, some szc, some szf =>
+      let cfg : CompactCfg := { target := target, minSegs := mn, maxPer := mx, cutoff := cutoff }
+      let F := oracleOf s.faults
+      let r := compactInterleaved current.restoreBuffer current.compact F cfg szc s.sys.w (some (s.sys.p, szf))
+      let fo := match r.2.2 with
+        | .empty => "empty"
+        | .flushed id n => s!"ok seg={id} n={n}"
+        | .error => "err"
+      let p' : Pers := match r.2.2 with
+        | .flushed _ _ => { s.sys.p with buffer := [] }
+        | .error => if current.restoreBuffer then s.sys.p else { s.sys.p with buffer := [] }
+        | .empty => s.sys.p
+      ({ s with sys := { s.sys with w := r.1, p := p' } }, s!"flush={fo} compact={showCompact r.2.1} calls={r.1.calls}")
+    | _, _, _, _, _, _ => (s, "bad-op")
   | ["REC"] => (s, showRec (recover s.sys.w.store s.rid))
   | ["CRASH", a, b] =>
     match a.toNat?, b.toNat? with
